@@ -60,18 +60,18 @@ func showWill(p *packet.Publish) string {
 		}
 		q = p.Header.Qos
 	}
-	return fmt.Sprintf("%s:%s:%d:%d", p.Topic, showHex(p.Payload), q, r)
+	return fmt.Sprintf("%s:%s:%d:%d", safe(p.Topic), showHex(p.Payload), q, r)
 }
 
 func showS(s *api.SessionMetadatas, stamps bool) string {
-	base := fmt.Sprintf("S,%s,%s,%s,%d,%s", s.SessionID, s.ClientID, s.MountPoint, s.Peer, showWill(s.LWT))
+	base := fmt.Sprintf("S,%s,%s,%s,%d,%s", safe([]byte(s.SessionID)), safe([]byte(s.ClientID)), safe([]byte(s.MountPoint)), s.Peer, showWill(s.LWT))
 	if stamps {
 		base += fmt.Sprintf(",%d,%d", s.LastAdded, s.LastDeleted)
 	}
 	return base
 }
 func showU(s *api.Subscription, stamps bool) string {
-	base := fmt.Sprintf("U,%s,%s,%d,%d", s.SessionID, s.Pattern, s.Peer, s.QoS)
+	base := fmt.Sprintf("U,%s,%s,%d,%d", safe([]byte(s.SessionID)), safe(s.Pattern), s.Peer, s.QoS)
 	if stamps {
 		base += fmt.Sprintf(",%d,%d", s.LastAdded, s.LastDeleted)
 	}
@@ -87,7 +87,7 @@ func showR(r *api.RetainedMessage, stamps bool) string {
 				ret = 1
 			}
 		}
-		base = fmt.Sprintf("R,%s,%s,%d,%d", r.Publish.Topic, showHex(r.Publish.Payload), q, ret)
+		base = fmt.Sprintf("R,%s,%s,%d,%d", safe(r.Publish.Topic), showHex(r.Publish.Payload), q, ret)
 	}
 	if stamps {
 		base += fmt.Sprintf(",%d,%d", r.LastAdded, r.LastDeleted)
